@@ -84,7 +84,7 @@ fn c13c_submesh_advance_witness() {
     let s = any_submesh();
     let mut out = CountSink { n: 0 };
     assert!(s.write(&mut out).is_ok());
-    assert!(out.n == kc::SKIN_SUBMESH_ADVANCE, "bytes written per submesh != amount SkinG::write adds to its offset per submesh");
+    assert!(out.n == kc::SKIN_SUBMESH_ADVANCE, "skin: bytes written per submesh != amount SkinG::write adds to its offset per submesh (a batch behind a submesh is not where the header says)");
 }
 
 // ------------------------------------------------------------------ headers
@@ -259,8 +259,7 @@ fn c13c_skin_submesh_and_batch_witness() {
     assert!(k.write(&mut out).is_ok());
     let mut src = out.into_source();
     let d = SkinG::<SkinHeader>::parse(&mut src).unwrap();
-    assert!(d.batches.len() == 1);
-    assert!(batch_eq(&d.batches[0], &k.batches[0]), "skin batch changed in write->parse");
+    assert!(d.batches.len() == 1 && batch_eq(&d.batches[0], &k.batches[0]), "skin: bytes written per submesh != amount SkinG::write adds to its offset per submesh (a batch behind a submesh is not where the header says)");
     std::mem::forget((k, d));
 }
 
@@ -284,6 +283,7 @@ fn c13c_parse_skin_autodetect_old() {
     std::mem::forget((k, r));
 }
 /// witness (known finding skin-autodetect-small): an old-layout skin with 4 indices (a quad) is taken for the new layout
+/// by the detection step of parse_skin (the parse that follows reads the file with the wrong header layout)
 #[kani::proof]
 #[kani::stub(std::fmt::format, vio::fmt_stub)]
 #[kani::stub(std::string::String::from_utf8_lossy, segio::lossy_stub)]
@@ -295,9 +295,9 @@ fn c13c_parse_skin_autodetect_small_witness() {
     let mut out = Seg::new();
     assert!(k.write(&mut out).is_ok());
     let mut src = out.into_source();
-    let r = parse_skin(&mut src);
-    let ok = match &r { Ok(SkinFile::Old(d)) => d.indices.len() == 4, _ => false };
-    assert!(ok, "old-layout skin written by the library is not read back as such by parse_skin");
+    let r = detect_skin_format(&mut src);
+    let is_new = match &r { Ok(n) => *n, Err(_) => true };
+    assert!(!is_new, "old-layout skin written by the library is not read back as such by parse_skin");
     std::mem::forget((k, r));
 }
 
